@@ -229,6 +229,10 @@ type Manifest struct {
 	Root      string
 	Types     []*Type
 	Resources []*Resource
+	// Deps: dependencyDataTypes - copies of the foreign types this project mentions (the spec parser lists every
+	// referenced non-input type there; the generator registers them leniently AFTER the input types of ALL manifests and
+	// writes them out again in the manifest it emits)
+	Deps []*Type
 	// identifiers whose relative map-iteration order the model explores exhaustively (cycle gadgets; at most 5)
 	PermIDs []Ref
 	// WellFormed: the manifest is inside wf_manifest (all grammar families are; only deliberately broken ones are not)
@@ -279,8 +283,12 @@ func (m *Manifest) JSON() []byte {
 		}
 		res = append(res, rm)
 	}
+	deps := []interface{}{}
+	for _, t := range m.Deps {
+		deps = append(deps, t.json())
+	}
 	b, err := json.MarshalIndent(map[string]interface{}{"packageRoot": m.Root, "inputDataTypes": types,
-		"dependencyDataTypes": []interface{}{}, "resources": res}, "", " ")
+		"dependencyDataTypes": deps, "resources": res}, "", " ")
 	if err != nil {
 		panic(err)
 	}
